@@ -636,8 +636,8 @@ class Evaluator(object):
 
     def for_stmt(self, st, env):
         it = self.ev(st.iter, env)
-        while it.op == "call" and tm.callee_name(it.a[0]) in ("builtins.list", "builtins.tuple") and len(it.a[1]) == 1 and not it.a[2]:
-            it = it.a[1][0]  # iterating list(X) visits the elements of X
+        while it.op == "call" and tm.callee_name(it.a[0]) in ("builtins.list", "builtins.tuple", ".tolist") and len(it.a[1]) == 1 and not it.a[2]:
+            it = it.a[1][0]  # iterating list(X) / X.tolist() visits the elements of X
         if it.op == "call" and tm.callee_name(it.a[0]) == "np.argwhere" and len(it.a[1]) == 1 and not it.a[2] and isinstance(st.target, (ast.Tuple, ast.List)):
             # the rows of np.argwhere(M) are the index tuples zip(*np.where(M))
             wh = tm.call(tm.ext("np.where"), (it.a[1][0],))
@@ -1232,7 +1232,7 @@ class Evaluator(object):
         saved = self.pc
         for g in node.generators:
             it = self.ev(g.iter, inner)
-            while it.op == "call" and tm.callee_name(it.a[0]) in ("builtins.list", "builtins.tuple") and len(it.a[1]) == 1 and not it.a[2]:
+            while it.op == "call" and tm.callee_name(it.a[0]) in ("builtins.list", "builtins.tuple", ".tolist") and len(it.a[1]) == 1 and not it.a[2]:
                 it = it.a[1][0]
             iters.append(it)
             self.pc = self.pc + (("loop", cid, it),)
@@ -1254,6 +1254,14 @@ class Evaluator(object):
                 return tm.lst(out) if kind in ("list", "gen") else tm.mk("set", *out)
         vals = tuple(self.ev(e, inner) for e in elts)
         self.pc = saved
+        if kind in ("list", "gen") and len(iters) == 1 and len(vals) == 1 and iters[0].op == "comp" and iters[0].a[0] in ("list", "gen") and len(iters[0].a[2]) == 1:
+            # map fusion: [E(p) for p in [F(x) for x in T]] is [E(F(x)) for x in T]
+            inner = iters[0]
+            el = tm.mk("iter", inner, cid)
+            fused_elt = tm.rebuild(vals[0], lambda z: inner.a[1] if z is el else None)
+            fused_conds = tuple(inner.a[3]) + tuple(tm.rebuild(c, lambda z: inner.a[1] if z is el else None) for c in conds)
+            if not any(z is el for z in tm.walk(fused_elt)):
+                return tm.mk("comp", kind, fused_elt, inner.a[2], fused_conds, inner.a[4])
         if kind == "list" and len(iters) == 1 and not conds and len(vals) == 1:
             # [x for x in it] / [(a, b) for a, b in it] is list(it)
             el = tm.mk("iter", iters[0], cid)
